@@ -243,8 +243,21 @@ class Engine(Interp):
             out.append((kind, s, v))
         return out
 
+    def unwind_targets(self, body):
+        t = getattr(body, '_unwind_targets', None)
+        if t is None:
+            t = set()
+            for blk in body.blocks:
+                u = blk['term'].get('unwind') or ''
+                if u.startswith('cleanup:'):
+                    t.add(int(u.split(':')[1]))
+            body._unwind_targets = t
+        return t
+
     def run_cfg(self, st, body, fid):
         heads = body.loop_heads()
+        utargets = self.unwind_targets(body)
+        useen = {}
         table = {}
         results = []
         work = [(0, st)]
@@ -276,6 +289,19 @@ class Engine(Interp):
                 bi, s = work.pop(pick)
                 if bi < 0:
                     bi = -1 - bi
+                elif s.unwinding and bi in utargets:
+                    # landing pad: an unwinding state that an earlier one at the same pad subsumes
+                    # (same shape, stronger-or-equal zone, same kind of panic) has nothing new to show
+                    origin = [e for e in s.events if e and e[0] == 'panic']
+                    kind = origin[-1][1] if origin else '?'
+                    ev = s.events
+                    shape, s = self.canonicalise(s, 'u%s_%d' % (fid, bi))
+                    s.events = ev
+                    seen = useen.setdefault((bi, kind), {}).setdefault(shape, [])
+                    if any(s.zone.leq(z0) for z0 in seen):
+                        self.stats['unwind_subsumed'] += 1
+                        continue
+                    seen.append(s.zone.copy())
             self.stats['blocks'] += 1
             if self.stats['blocks'] > MAX_STEPS:
                 raise Budget()
